@@ -328,6 +328,16 @@ def run(loader, R, tier):
                             "empty", "size") and (y.get("o") or {}).get(
                             "n") in locs:
                         tested.add(y["o"]["n"])
+        # validation through the class's own predicate counts as well
+        for n in walk(f["body"]):
+            if n.get("k") == "if" and any(
+                    y.get("k") == "throw" for y in walk(n.get("t") or {})):
+                for y in walk(n.get("c") or {}):
+                    if y.get("k") in ("call", "mcall") \
+                            and y.get("n") == "is_canonical":
+                        for z in walk(y):
+                            if z.get("k") == "ref" and z.get("n") in locs:
+                                tested.add(z["n"])
         used = {x["n"] for m_ in mk for x in walk(m_)
                 if x.get("k") == "ref" and x.get("n") in locs}
         R.instance("R20.12", K, sample={"class": K,
